@@ -3062,6 +3062,49 @@ example : ∃ ev' ev : Ev Rat,
     (by decide) (by decide) a2.base b2.base
   exact ⟨ev', ev, by rw [h1], by rw [h2], h3⟩
 
+/-! non-vacuity of the seeded change C17-10 at RECIPE level (through `C17_component_pads_same_recipe`, wave 7: the
+    content of empty braces is padding, `CPad.e`): `Use a #big pan{ [- to taste -] } and ~rest{ [- to taste -] } with
+    @sea salt{ [- to taste -] }⏎` against the same with `{}` three times -/
+def C17_w10BracesDoc (p : CPad) : List (DocItem × List Tok) :=
+  [(.step [.text [tk .word "Use".toList, tk .ws [' '], tk .word "a".toList, tk .ws [' ']],
+           .cookware { name := [tk .word "big".toList, tk .ws [' '], tk .word "pan".toList] } p,
+           .text [tk .ws [' '], tk .word "and".toList, tk .ws [' ']],
+           .timer C17_w10Timer p,
+           .text [tk .ws [' '], tk .word "with".toList, tk .ws [' ']],
+           .ingredient C17_w10Comp p], [tk .newline ['\n']])]
+
+example : render ([] ++ docSpec (C17_w10BracesDoc { e := C17_w10PadC })) =
+      "Use a #big pan{ [- to taste -] } and ~rest{ [- to taste -] } with @sea salt{ [- to taste -] }\n".toList ∧
+    render ([] ++ docSpec (C17_w10BracesDoc {})) = "Use a #big pan{} and ~rest{} with @sea salt{}\n".toList := by decide
+
+theorem C17_w10BracesDoc_wf (p : CPad)
+    (h1 : (∀ d ∈ C17_w10BracesDoc p, d.1.ok C17_toyEnv.cs C17_toyEnv.ext = true) ∧ (∀ d ∈ C17_w10BracesDoc p, d.1.simple = true) ∧
+      sepsOK ((C17_w10BracesDoc p).map (·.2)) = true ∧ WellSpelled C17_toyEnv.cs ([] ++ docSpec (C17_w10BracesDoc p)) ∧
+      (parseFrontmatter C17_toyEnv.cs (render ([] ++ docSpec (C17_w10BracesDoc p)))).isNone = true) :
+    DocWF Rat C17_toyEnv [] (C17_w10BracesDoc p) := by
+  obtain ⟨a, b, c, d, e⟩ := h1
+  refine ⟨by decide, a, b, ?_, ?_, c, d, by simpa using e⟩
+  · intro x hx
+    simp only [C17_w10BracesDoc, List.mem_cons, List.not_mem_nil, or_false] at hx
+    subst hx; trivial
+  · intro x hx
+    simp only [C17_w10BracesDoc, List.mem_cons, List.not_mem_nil, or_false] at hx
+    subst hx
+    intro sg hsg
+    simp only [List.mem_cons, List.not_mem_nil, or_false] at hsg
+    rcases hsg with rfl | rfl | rfl | rfl | rfl | rfl
+    · intro hh; exact absurd hh (by decide)
+    · trivial
+    · intro hh; exact absurd hh (by decide)
+    · intro hh; exact absurd hh (by decide)
+    · intro hh; exact absurd hh (by decide)
+    · trivial
+
+example : SameRecipe (α := Rat) (fun c => c = ' ')
+    (parseRecipe C17_toyEnv (render ([] ++ docSpec (C17_w10BracesDoc { e := C17_w10PadC }))))
+    (parseRecipe C17_toyEnv (render ([] ++ docSpec (C17_w10BracesDoc {})))) :=
+  C17_component_pads_same_recipe _ C17_toyEnv [] [] _ _ (C17_w10BracesDoc_wf _ (by decide)) (C17_w10BracesDoc_wf _ (by decide)) rfl
+
 /-- helper for the non-vacuity examples under INLINE_QUANTITIES (`C17_w9Env`): a document of single-text-run steps
     whose runs show something and hold no inline quantity is well formed once the decidable conditions hold -/
 theorem C17_w10ExDocWF (doc : List (DocItem × List Tok))
